@@ -102,6 +102,12 @@ func (c04) Gen(r *rand.Rand, tier string, run int) *core.Case {
 		c.Params["lent_refuses"] = []int{0, 2, 3, 5}[r.IntN(4)]
 		if c.Params["lend"] == 2 {
 			c.Params["lent_refuses"] = 0
+		} else if r.IntN(3) == 0 {
+			// one object lent twice: the second object of the service is given
+			// the very object the first one was given, by the same client
+			c.Batch = "lent-objects-lent-twice"
+			c.Params["lend_same"] = 1
+			c.Params["lent_refuses"] = 0
 		}
 		if nObj < 2 {
 			nObj = 2
@@ -309,6 +315,7 @@ func (c04) Run(c *core.Case, env *core.Env) {
 		// one reference to the remote service per connection: the objects a
 		// client hosts get their identifiers from it
 		refs := map[int]bus.Service{}
+		var firstLent probe.LentProxy
 		for o := range w.ObjIDs {
 			cn := o % nConn
 			zzsim.SetNode(fmt.Sprintf("client%d", cn))
@@ -316,7 +323,16 @@ func (c04) Run(c *core.Case, env *core.Env) {
 				refs[cn] = proxies[cn][o].Proxy().ProxyService(nil)
 			}
 			svcRef := refs[cn]
-			lp, err := probe.CreateLent(nil, svcRef, &LentImpl{Env: env, Obj: 100 + o, RefuseEvery: c.P("lent_refuses", 0)})
+			var lp probe.LentProxy
+			if c.P("lend_same", 0) == 1 && o == 1 {
+				cn, lp = 0, firstLent
+				zzsim.SetNode("client0")
+			} else {
+				lp, err = probe.CreateLent(nil, svcRef, &LentImpl{Env: env, Obj: 100 + o, RefuseEvery: c.P("lent_refuses", 0)})
+			}
+			if o == 0 {
+				firstLent = lp
+			}
 			if err == nil {
 				err = proxies[cn][o].Lend(lp)
 			}
@@ -633,6 +649,9 @@ func (c04) Check(c *core.Case, env *core.Env, res zzsim.Result, v *core.Verdict)
 	if c.P("lend", 0) == 2 {
 		prefix = "C04/own-service-reference/"
 	}
+	if c.P("lend_same", 0) == 1 {
+		prefix = "C04/lent-twice/"
+	}
 	bad := func(class, format string, args ...interface{}) {
 		v.Violations = append(v.Violations, core.Violation{Class: prefix + class, Detail: fmt.Sprintf(format, args...)})
 	}
@@ -698,6 +717,9 @@ func (c04) Check(c *core.Case, env *core.Env, res zzsim.Result, v *core.Verdict)
 			if h.Kind == "relay" {
 				// executed by the object the client lent to server object obj
 				obj += 100
+				if c.P("lend_same", 0) == 1 && obj == 101 {
+					obj = 100
+				}
 			}
 			n := len(byKey[key])
 			if h.OK {
